@@ -22,7 +22,7 @@ pub open spec fn triu_wf(n: usize, ap: Seq<usize>, ai: Seq<usize>) -> bool {
         triu_wf(n, Ap@, Ai@), n < usize::MAX,
         old(work).len() >= n, old(Lnz).len() == n, old(etree).len() == n,
     ensures
-        r is Ok,
+        r == Ok::<usize, QDLDLError>(0),
         final(work).len() == old(work).len(), final(Lnz).len() == n, final(etree).len() == n,
         // every node's parent (if any) is a later column: the elimination tree is a forest ordered by index
         forall|i: int| 0 <= i < n ==> final(etree)[i] == QDLDL_UNKNOWN || i < final(etree)[i] < n,
